@@ -1147,14 +1147,10 @@ def build_struct(target_host: str, banner: Optional['Banner'], kex: Optional['SS
                 'hash_alg': 'MD5',
                 'hash': fp.md5[4:]
             })
-    else:
-        pkm_supported_ciphers = None
-        pkm_supported_authentications = None
-        pkm_fp = None
-        if pkm is not None:
-            pkm_supported_ciphers = pkm.supported_ciphers
-            pkm_supported_authentications = pkm.supported_authentications
-            pkm_fp = Fingerprint(pkm.host_key_fingerprint_data).sha256
+    elif pkm is not None:  # Only report SSHv1 algorithms when the peer actually sent them; a failed handshake has neither kex nor pkm.
+        pkm_supported_ciphers = pkm.supported_ciphers
+        pkm_supported_authentications = pkm.supported_authentications
+        pkm_fp = Fingerprint(pkm.host_key_fingerprint_data).sha256
 
         res['key'] = ['ssh-rsa1']
         res['enc'] = pkm_supported_ciphers
